@@ -94,6 +94,13 @@ impl PidScan {
     fn new(data: &Path) -> PidScan {
         PidScan { needle: format!("RIP_DATA_DIR={}", data.display()).into_bytes(), floor: 0, seen: Default::default() }
     }
+    /// a scan without memory: pids are recycled (pid_max is 32768 here and a thorough run spawns
+    /// tens of thousands of processes), so a cached "not ours" can belong to a dead stranger whose
+    /// pid one of our servers now has. Decisions (the listeners at the end of a wave, the usability
+    /// probe) are taken from a fresh scan; the cache only serves the 12 ms polls in between.
+    fn fresh(&self) -> PidScan {
+        PidScan { needle: self.needle.clone(), floor: 0, seen: Default::default() }
+    }
     fn pids(&mut self) -> Vec<u32> {
         let mut out = Vec::new();
         let Ok(rd) = std::fs::read_dir("/proc") else { return out };
@@ -234,7 +241,7 @@ fn run_wave(wave: &[(u8, u8)], bins: &ProcBins, env: &[(String, String)], cwd: &
         let l = listening_pids(scan);
         if l.len() >= 2 && two.is_none() {
             // confirm with a second look: a pid that just died may still be listed for an instant
-            let l2 = listening_pids(scan);
+            let l2 = listening_pids(&mut scan.fresh());
             let both: Vec<u32> = l.iter().copied().filter(|p| l2.contains(p)).collect();
             if both.len() >= 2 {
                 two = Some(both);
@@ -265,7 +272,7 @@ fn run_wave(wave: &[(u8, u8)], bins: &ProcBins, env: &[(String, String)], cwd: &
         }
         std::thread::sleep(Duration::from_millis(12));
     }
-    WaveOutcome { two_at_once: two, cli_exits: clis.iter().map(|k| k.exit).collect(), timed_out, final_listening: listening_pids(scan) }
+    WaveOutcome { two_at_once: two, cli_exits: clis.iter().map(|k| k.exit).collect(), timed_out, final_listening: listening_pids(&mut scan.fresh()) }
 }
 
 fn ping_endpoint(ep: &str) -> bool {
